@@ -72,6 +72,7 @@ type uresult struct {
 	c        ucase
 	err      string // infrastructure error (setup failed): case dropped
 	planErr  string
+	revErr   bool
 	changes  []string // canonical source change kinds
 	plan     *migrate.Plan
 	revs     [][]string
@@ -162,6 +163,16 @@ func flags(p *migrate.Plan) (all, core, bracket bool, revs [][]string, err error
 		r, e := c.ReverseStmts()
 		if e != nil {
 			return false, false, false, nil, e
+		}
+		switch v := c.Reverse.(type) { // the harness's own reading of Change.Reverse
+		case string:
+			if len(r) != 1 || r[0] != v {
+				return false, false, false, nil, fmt.Errorf("ReverseStmts() = %q, Reverse = %q", r, v)
+			}
+		case []string:
+			if fmt.Sprint(r) != fmt.Sprint(v) {
+				return false, false, false, nil, fmt.Errorf("ReverseStmts() = %q, Reverse = %q", r, v)
+			}
 		}
 		revs[i] = r
 		if len(r) == 0 {
@@ -453,6 +464,7 @@ func runUpDown(c ucase) (r uresult) {
 	r.flagAll, r.flagCore, r.bracket, r.revs, err = flags(plan)
 	if err != nil {
 		r.planErr = "ReverseStmts: " + err.Error()
+		r.revErr = true
 		return
 	}
 	if !plan.Reversible {
@@ -724,6 +736,10 @@ func runUpDownStage(w *out.W, tier string) {
 		}
 		head += " changes=" + strings.Join(r.changes, " ") + " tags=[" + strings.Join(tags, ",") + "]"
 		w.ImplOnly(c.id, head)
+		if r.revErr {
+			w.Violation(c.id, "reversestmts-mismatch", r.planErr+" | "+head)
+			continue
+		}
 		if r.planErr != "" {
 			w.Count("plan-error")
 			continue
